@@ -1052,7 +1052,7 @@ def ext(ctx):
                 "request (endpoint discovery with / without cache, one retry, bearer tokens) against local HTTP nodes; Identifiers.tla - the ids "
                 "a resolution is given (pkg/docutil), the document validators, the create result; ClientApi.tla - the four calls of the "
                 "Sidetree client from the options to the request that leaves the client; ClientDoc.tla - the caller's document (keys, "
-                "services, also-known-as) to the document of the request. A disagreement is reported as NONCONFORMANCE with "
+                "services, also-known-as) to the document of the request; DocAccess.tla - the readers of pkg/document. A disagreement is reported as NONCONFORMANCE with "
                 "the extension specification, not as a violation of a property.")
     deep = ctx.tier != "quick"
     _, vs = ctx.tlc_pipe("MC_Versions.tla", "MC_Versions.cfg", ["versions-replay"], workers=4,
@@ -1105,6 +1105,14 @@ def ext(ctx):
         rec["members"] = rec["members"][1:] + ["custom"]
 
     ctx.negctl_replay(["clientdoc-replay"], cd["_first_edge"], cdwrong)
+    _, da = ctx.tlc_pipe("MC_DocAccess.tla", "MC_DocAccess.cfg", ["docaccess-replay"], workers=1,
+                         label="DocAccess.tla: 33 accessors of pkg/document x 12 shapes of the member they read, alone and among "
+                               "other members holding values of every kind")
+
+    def dawrong(rec):
+        rec["result"]["kind"] = "value" if rec["result"]["kind"] != "value" else "empty"
+
+    ctx.negctl_replay(["docaccess-replay"], da["_first_edge"], dawrong)
     if deep:
         ctx.tlaps_check("VersionsProofs.tla", needs=("Versions.tla",), abstract_ops=False,
                         label="TLAPS: version matching is an equivalence on all strings and looks at two parts; the "
